@@ -56,7 +56,11 @@ class Number(NumericElement[float]):
     """
 
     def construct(self, value, _property):  # pylint: disable=no-self-use
-        return float(value)
+        try:
+            return float(value)
+        except OverflowError:
+            # An integer beyond the float range has no equal float.
+            return value
 
     @property
     def type_validator(self):
